@@ -114,6 +114,12 @@ def queries(dx, pdf, other, npart=4):
         "big-set_index-partition1": lambda: big().set_index("k").partitions[[1]],
         "big-sort_values": lambda: big().sort_values("k"),
         "big-sort_values-partition0": lambda: big().sort_values("k").partitions[[0]],
+        # the same sort / index with other knobs (each is its own query although they read one column)
+        "big-set_index-upsample2": lambda: big().set_index("k", upsample=2.0),
+        "big-set_index-upsample05": lambda: big().set_index("k", upsample=0.5),
+        "big-set_index-np3": lambda: big().set_index("k", npartitions=3),
+        "big-sort_values-desc": lambda: big().sort_values("k", ascending=False),
+        "big-sort_values-upsample2": lambda: big().sort_values("k", upsample=2.0),
         # one column, already sorted across the partitions, sorted in both directions / indexed (the cached division info
         # of a sort includes a "presorted" verdict that depends on the direction)
         "presorted-sort-asc": lambda: pre().sort_values("x"),
